@@ -292,7 +292,12 @@ func vfGenC20(rt *rapid.T) vfC20Case {
 				cs.Evs = append(cs.Evs, vfC20Ev{Op: "cols", V: int64(rapid.IntRange(1, 500).Draw(rt, "newcols"))})
 			}
 			if rapid.IntRange(0, 14).Draw(rt, "pausing") == 0 {
-				cs.Evs = append(cs.Evs, vfC20Ev{Op: "pause"}, vfC20Ev{Op: "step", V: vfPauseStep(v, rem, cs.Hostile), DtU: 300000}, vfC20Ev{Op: "unpause"})
+				cs.Evs = append(cs.Evs, vfC20Ev{Op: "pause"}, vfC20Ev{Op: "step", V: vfPauseStep(v, rem, cs.Hostile), DtU: 300000})
+				if rapid.Bool().Draw(rt, "resize_paused") {
+					// the window is resized while the stop question is on the screen; the lines after the answer must fit the new width
+					cs.Evs = append(cs.Evs, vfC20Ev{Op: "cols", V: int64(rapid.IntRange(1, 500).Draw(rt, "pausedcols"))})
+				}
+				cs.Evs = append(cs.Evs, vfC20Ev{Op: "unpause"})
 			}
 		}
 		if rapid.Bool().Draw(rt, "done") {
